@@ -683,7 +683,8 @@ namespace c15
         int quick, thorough;
     };
     // bytes typed after the configuration choice, by line capacity (index cap-2)
-    static const Depth RAW_DEPTH[4] = {{6, 8}, {6, 8}, {5, 7}, {5, 7}};
+    static const Depth RAW_DEPTH[4] = {{6, 8}, {6, 8}, {5, 7}, {5, 7}};    // terminal automaton
+    static const Depth RL_RAW_DEPTH[3] = {{6, 8}, {5, 7}, {5, 6}};          // decoder alone (subsumed by the above)
     static const Depth KEY_DEPTH[4] = {{9, 12}, {9, 12}, {9, 12}, {9, 12}};
 
     template <class SL, class RL, class VT> void register_all()
@@ -693,8 +694,8 @@ namespace c15
         for (unsigned cap = 2; cap <= 4; cap++)
         {
             mc::BfsOpts o;
-            o.depth_quick = 1 + RAW_DEPTH[cap - 2].quick;
-            o.depth_thorough = 1 + RAW_DEPTH[cap - 2].thorough;
+            o.depth_quick = 1 + RL_RAW_DEPTH[cap - 2].quick;
+            o.depth_thorough = 1 + RL_RAW_DEPTH[cap - 2].thorough;
             o.max_states = 12000000;
             mc::add_bfs(mc::fmt("%s_readline_raw_cap%u", f.c_str(), cap),
                         [cap] {
